@@ -387,3 +387,10 @@ CHECKS = {
 
 NOT_APPLICABLE_REASON_UNBUILT = ('check designed in DESIGN.md but not built/validated yet in this session; '
                                  'not claimed rather than registered in a weak form')
+
+
+NA = {
+ 'C29': 'not built: needs the CLI toplevel driven over a pipe, a parser for its answer protocol and re-execution of printed answers (designed in DESIGN.md section 3; the embedded-query half is covered by C28); runtime monitoring applies, the monitor was not built and validated in time, so the property is not claimed',
+ 'C32': 'not built: needs a multi-threaded harness with yield points inside AtomTable::build_with and a ThreadSanitizer build (-Zbuild-std); without them a stress monitor would rarely reach the growth / epoch-recheck window; not claimed rather than claimed weakly (DESIGN.md section 6)',
+ 'C33': 'not built: the designed monitor (guard region after the heap allocation plus memcheck/ASan runs under fill-level stress) was not made; only an incidental heap length <= capacity comparison on every worker reply exists, which is not an out-of-bounds-write detector (DESIGN.md section 6)',
+}
